@@ -135,6 +135,18 @@ func regStd() {
 	regEnv("bytes.Equal", "bytes.Equal = equality", func(ex *Executor, st *State, c *callCtx) []callResult {
 		return one(st, Eq(ex.bytesTerm(st, c.Args[0]), ex.bytesTerm(st, c.Args[1])))
 	})
+	regEnv("strings.ContainsAny", "strings.ContainsAny(s, chars): some byte of chars occurs in s (literal chars)", func(ex *Executor, st *State, c *callCtx) []callResult {
+		s := ex.asTerm(st, c.Args[0])
+		chars, ok := ex.asTerm(st, c.Args[1]).StrVal()
+		if !ok {
+			return one(st, App("str_containsany", SBool, s, ex.asTerm(st, c.Args[1])))
+		}
+		var ds []*Term
+		for i := 0; i < len(chars); i++ {
+			ds = append(ds, Builtin("str.contains", SBool, s, StrLit(chars[i:i+1])))
+		}
+		return one(st, Or(ds...))
+	})
 	regEnv("strings.ToLower", "strings.ToLower: uninterpreted, idempotent", pure("str_lower", SStr))
 	regEnv("strings.ToUpper", "strings.ToUpper: uninterpreted", pure("str_upper", SStr))
 	regEnv("strings.TrimSpace", "strings.TrimSpace: uninterpreted", pure("str_trimspace", SStr))
